@@ -17,7 +17,7 @@ META = {
                   'pytorch_wavelets.dwt.lowlevel.AFB1D.forward', 'pytorch_wavelets.dwt.lowlevel.AFB2D.forward',
                   'pytorch_wavelets.dwt.lowlevel.afb1d', 'pytorch_wavelets.dwt.lowlevel.mypad', 'pytorch_wavelets.dwt.lowlevel.roll',
                   'pytorch_wavelets.utils.reflect', 'pytorch_wavelets.dwt.lowlevel.prep_filt_afb1d', 'pytorch_wavelets.dwt.lowlevel.prep_filt_afb2d'],
-    'explanation': 'C01: for each configuration the forward DWT is run once on a tensor of input atoms; each output '
+    'explanation': 'C01 (plus an integer lemma, unbounded in x: the index helper utils.reflect, cut out of the source and run on a symbolic integer, equals the half-sample symmetric index for every integer x and every length l <= 64). For each configuration the forward DWT is run once on a tensor of input atoms; each output '
                    'coefficient minus the PyWavelets basis-response row is a linear form d_k; query: exists x in [-1,1]^n with |d_k(x)| > tau.',
     'bounds': {
         'quick': {'1d': {'wavelets': QUICK_WAVES, 'modes': D.MODES, 'J': [1, 2, 3], 'N': '2..L+3, 2L, 2L+1 (cap 40), seed-rotated half',
@@ -41,7 +41,7 @@ def _n_list(L, cap):
 
 
 def configs(tier, seed):
-    out = []
+    out = [dict(kind='lemma_reflect', lengths=list(range(1, 33))), dict(kind='lemma_reflect', lengths=list(range(33, 65)))]
     if tier == 'quick':
         for w in QUICK_WAVES:
             L = D.filt_len(w)
@@ -129,9 +129,49 @@ def case(cfg):
     return in_specs, impl, ref
 
 
+def _run_lemma(res, cfg):
+    """reflect(x, -0.5, l-0.5) == half-sample symmetric index, for EVERY integer x, per length l (QF_LIRA)"""
+    from vlib import lemma
+    import z3
+    st = smt.Stats()
+    t0 = time.time()
+    out = lemma.check_reflect(symtorch.REPO, cfg['lengths'])
+    st.solver_s = time.time() - t0
+    res.funcs = ['pytorch_wavelets.utils.reflect']
+    res.nontrivial = True
+    # vacuity twin: the whole-sample symmetric index must be refuted
+    x = z3.Int('x'); l = 5
+    lemma._Np.side = []
+    r = lemma.reflect_term(symtorch.REPO, z3.ToReal(x), '-1/2', '%d/2' % (2 * l - 1))
+    y = x % (2 * l - 2)
+    tw = z3.Solver(); [tw.add(c) for c in lemma._Np.side]; tw.add(r != z3.ToReal(z3.If(y < l, y, 2 * l - 2 - y)))
+    if str(tw.check()) != 'sat':
+        res.status = 'error'; res.trace = 'reachability twin of the reflect lemma was not refuted'; return res
+    utils = symtorch.real('pytorch_wavelets.utils')
+    for (ln, v, cx) in out:
+        st.queries += 1
+        if v == 'unsat':
+            st.unsat += 1
+        elif v == 'sat':
+            st.sat += 1
+            got = int(utils.reflect(np.array([cx], dtype='int32'), -0.5, ln - 0.5)[0])
+            yy = cx % (2 * ln); exp = yy if yy < ln else 2 * ln - 1 - yy
+            res.violations.append(dict(what='reflect(%d, -0.5, %d-0.5) = %d, half-sample symmetric index is %d' % (cx, ln, got, exp), facts=dict(kind='lemma_reflect', l=ln),
+                                       replay=dict(kind='lemma', x=cx, l=ln), reproduced=got != exp))
+        else:
+            st.unknown += 1
+            res.status = 'inconclusive'; res.notes.append('reflect lemma l=%d: %s' % (ln, v))
+    res.stats = st
+    if res.violations:
+        res.status = 'violation'
+    return res
+
+
 def run_config(cfg):
     res = core.Result(cfg)
     core.begin()
+    if cfg.get('kind') == 'lemma_reflect':
+        return _run_lemma(res, cfg)
     facts = _facts(cfg)
     in_specs, impl, ref = case(cfg)
     # reflect mode may raise when the signal is shorter than the filter; it never returns different numbers
@@ -142,5 +182,10 @@ def run_config(cfg):
 
 def replay(payload):
     core.begin()
+    if payload['config'].get('kind') == 'lemma_reflect':
+        rp = payload['replay']
+        got = int(symtorch.real('pytorch_wavelets.utils').reflect(np.array([rp['x']], dtype='int32'), -0.5, rp['l'] - 0.5)[0])
+        yy = rp['x'] % (2 * rp['l']); exp = yy if yy < rp['l'] else 2 * rp['l'] - 1 - yy
+        return dict(reproduced=got != exp, detail=dict(got=got, expected=exp))
     in_specs, impl, ref = case(payload['config'])
     return lincheck.replay_generic(payload, in_specs, impl, ref)
